@@ -1,8 +1,42 @@
 // Copyright Amazon.com, Inc. or its affiliates. All Rights Reserved.
 // SPDX-License-Identifier: Apache-2.0
 
+#[cfg(not(metrique_verif))]
 use hashbrown::Equivalent;
+#[cfg(not(metrique_verif))]
 use hashbrown::hash_map::EntryRef;
+#[cfg(metrique_verif)]
+use ::hashbrown::Equivalent;
+#[cfg(metrique_verif)]
+use ::hashbrown::hash_map::EntryRef;
+// Verification hook: under `--cfg metrique_verif` the name `hashbrown` in this module means a map
+// whose hasher is keyed from the simulation seed, so that the iteration order of
+// `dimension_set_map` (order of split records) and of the validation map is replayable.
+#[cfg(metrique_verif)]
+use verif_hashbrown as hashbrown;
+#[cfg(metrique_verif)]
+mod verif_hashbrown {
+    pub use ::hashbrown::hash_map;
+    type Inner<K, V> = ::hashbrown::HashMap<K, V, detsim::hash::SeededState>;
+    #[derive(Clone)]
+    pub struct HashMap<K, V>(Inner<K, V>);
+    impl<K, V> HashMap<K, V> {
+        pub fn new() -> Self {
+            HashMap(Inner::with_hasher(detsim::hash::SeededState::new()))
+        }
+    }
+    impl<K, V> std::ops::Deref for HashMap<K, V> {
+        type Target = Inner<K, V>;
+        fn deref(&self) -> &Self::Target {
+            &self.0
+        }
+    }
+    impl<K, V> std::ops::DerefMut for HashMap<K, V> {
+        fn deref_mut(&mut self) -> &mut Self::Target {
+            &mut self.0
+        }
+    }
+}
 use itertools::Itertools;
 use metrique_writer::sample::DefaultRng;
 use metrique_writer::value::{FlagConstructor, ForceFlag, MetricOptions};
